@@ -12,7 +12,10 @@ for d in dirs:
     m = json.load(open(os.path.join(V, "seeded", d, "meta.json")))
     what = re.sub(r"\s+", " ", m.get("what", "")).replace("|", "\\|")
     res = re.sub(r"\s+", " ", m.get("confirmed_by_integrator", {}).get("check_result", "?")).replace("|", "\\|")
-    if not res.lower().startswith("caught"):
+    if res.startswith("retired"):
+        retired = globals().get("retired", 0) + 1
+        globals()["retired"] = retired
+    elif not res.lower().startswith("caught"):
         missed += 1         # the integrator's text starts with "caught" only when the check as it stood caught the change with an input
     rows.append("| %s | %s | %s |" % (d, what[:420] + (" ..." if len(what) > 420 else ""), res))
 p = os.path.join(V, "DESIGN.md")
@@ -21,4 +24,4 @@ h = lines.index("| seed | change (from the author's meta.json) | result |")
 e = next(i for i in range(h + 2, len(lines)) if not lines[i].startswith("| C"))
 lines[h + 2:e] = rows
 open(p, "w").write("\n".join(lines))
-print("rows:", len(rows), "missed at first:", missed)
+print("rows:", len(rows), "missed at first:", missed, "retired:", globals().get("retired", 0))
